@@ -64,6 +64,10 @@ def chart_seq():
         tr(6, 'b2', 'b2', event='x', tguard=('idle', 2), action="P('t', time)"),
         tr(7, 'b', None, event='adv', action="ADV(1); P('t', time)", adv=1),
         tr(8, 'b2', None, event='y', tguard=('after', 1), action="P('t', time)"),
+        # a nested state targeting its own ancestor, and a compound state targeting its active descendant:
+        # the re-entered states must restart their timers although they were active before the step
+        tr(9, 'b1', 'b', event='y', action="P('t', time)"),
+        tr(10, 'b', 'b2', event='z', action="P('t', time)"),
     ]
     return {'name': 'seq', 'preamble': None, 'description': None, 'states': states, 'transitions': T}
 
@@ -93,7 +97,7 @@ def chart_orth():
 CHARTS = {'seq': chart_seq, 'orth': chart_orth}
 # ('stepL', d): execute_once while a listener moves the clock by d when 'step started' is emitted,
 # i.e. after the time was sampled and before any guard is evaluated
-OPS = [('clock', 1), ('clock', 2), ('clock', 3), ('q', 'x'), ('q', 'y'), ('q', 'adv'), ('step',),
+OPS = [('clock', 1), ('clock', 2), ('clock', 3), ('q', 'x'), ('q', 'y'), ('q', 'z'), ('q', 'adv'), ('step',),
        ('stepL', 2), ('stepL', 3)]
 
 
